@@ -60,7 +60,7 @@ ASSUMPTIONS = [
     "numpy .tobytes() / float.hex() as the bit-identity relation; OMP/BLAS threads pinned to 1 by ./check",
     "the serial run (num_procs=1) of the same call is the reference model",
 ]
-SHARDS = 3
+SHARDS = 4
 CASE_TIMEOUT = 900
 MIN_EVALS = 30
 
